@@ -97,6 +97,7 @@ def run(repo, rep, tier):
     write_loops_are_duplicate_free(repo, rep)
     validated_entry_is_deleted_last(repo, rep)
     rollback_undoes_own_work(repo, rep)
+    settings_used_after_the_write_are_validated(repo, rep)
     res = Resolver(repo)
     def warn_escapes(call, func):
         # warnings.warn() is a raise point: pywbem's warning classes are
@@ -929,3 +930,65 @@ def rollback_undoes_own_work(repo, rep):
         node = probe
     if len(rollbacks(_F)) != 1:
         raise AnalysisError('C11.R4 recogniser broken')
+
+
+def settings_used_after_the_write_are_validated(repo, rep):
+    """C11.R7: _mock_imethodcall() / _mock_methodcall() carry out the
+    operation and then sleep for `response_delay`.  time.sleep() raises
+    ValueError for a negative number - after the repository was changed.
+    The property setter of response_delay refuses such values; the
+    constructor must not go around it (`self._response_delay =
+    response_delay` stores anything): a FakedWBEMConnection(response_delay=
+    -1) makes every CreateClass / SetQualifier / CreateInstance raise
+    ValueError with the object already in the repository.  Generally: a
+    slot that a validating setter of FakedWBEMConnection guards is not
+    assigned from a constructor parameter directly."""
+    r7 = rep.rule('C11.R7', 'constructor parameters guarded by a validating '
+                  'setter are stored through it')
+    cls = repo.cls(MOCK, 'FakedWBEMConnection')
+    init = cls.methods.get('__init__')
+    if init is None:
+        raise AnalysisError('FakedWBEMConnection.__init__ vanished')
+    guarded = {}
+    for name, st in cls.setters.items():
+        raises = any(isinstance(x, ast.Raise) for x in ast.walk(st.node))
+        if not raises:
+            continue
+        for a in walk_no_nested(st.node):
+            if isinstance(a, ast.Assign) and \
+                    isinstance(a.targets[0], ast.Attribute) and \
+                    isinstance(a.targets[0].value, ast.Name) and \
+                    a.targets[0].value.id == 'self':
+                guarded[a.targets[0].attr] = name
+    if not guarded:
+        raise AnalysisError('C11.R7: no validating setter found in '
+                            'FakedWBEMConnection')
+    params = set(init.params)
+    for slot, prop in sorted(guarded.items()):
+        r7.sites += 1
+        r7.functions.add(init.fq)
+        bad = [a for a in walk_no_nested(init.node)
+               if isinstance(a, ast.Assign) and
+               isinstance(a.targets[0], ast.Attribute) and
+               isinstance(a.targets[0].value, ast.Name) and
+               a.targets[0].value.id == 'self' and
+               a.targets[0].attr == slot and
+               isinstance(a.value, ast.Name) and a.value.id in params]
+        # (a provisional store is fine when the same parameter also goes
+        # through the setter later in the constructor)
+        bad = [a for a in bad if not any(
+            isinstance(b, ast.Assign) and
+            isinstance(b.targets[0], ast.Attribute) and
+            isinstance(b.targets[0].value, ast.Name) and
+            b.targets[0].value.id == 'self' and
+            b.targets[0].attr == prop and norm(b.value) == norm(a.value)
+            for b in walk_no_nested(init.node))]
+        r7.ob(not bad, 'init:' + slot, {'setter': prop})
+        for a in bad:
+            rep.finding(r7, init.qualname, norm(a, 60), 'setter-bypassed',
+                        MOCK, a.lineno,
+                        'the constructor stores its parameter in self.%s '
+                        'without the check that the %s setter makes: an '
+                        'invalid value is only noticed when it is used - '
+                        'after the operation has changed the repository'
+                        % (slot, prop))
